@@ -80,8 +80,14 @@ func streamSessionDyn(srv pubsubpb.SubscriberServer, base context.Context, reqs 
 		// marks[k]: how many messages the stream had sent when request k went in
 		f.mu.Lock()
 		marks = append(marks, len(f.sent))
-		r := mk(append([]*pubsubpb.ReceivedMessage(nil), f.sent...))
+		got := append([]*pubsubpb.ReceivedMessage(nil), f.sent...)
 		f.mu.Unlock()
+		r := mk(got)
+		if r == nil {
+			// a step that sends nothing on the stream (it acted elsewhere, e.g. a Seek)
+			settle()
+			continue
+		}
 		select {
 		case f.in <- r:
 		case early = <-done:
